@@ -79,6 +79,9 @@ func execOp(op string) result {
 		run = func() (string, string) { return execNX(f), "" }
 	case "jt":
 		run = func() (string, string) { return execJT(f), "" }
+	case "jx":
+		execJX(f) // first use of the universe and of its types, outside the measured window
+		run = func() (string, string) { return "oracle-only", execJX(f) }
 	case "x":
 		if isUniverse(f[1]) {
 			execX(f) // first use of the universe and of its types, outside the measured window
@@ -144,6 +147,8 @@ func panicSite(op string) string {
 			rawNX(f)
 		case "jt":
 			rawJT(f)
+		case "jx":
+			rawJX(f)
 		}
 	}()
 	if len(msg) > 120 {
@@ -1251,7 +1256,7 @@ func inputLen(f []string) int {
 		h = f[2]
 	case "nx":
 		return (len(f[2]) - 1) / 2
-	case "jt":
+	case "jt", "jx":
 		h = f[3]
 	default:
 		return 0
@@ -1315,7 +1320,7 @@ func oracle(r *hx.Run, op string, res result, mut string) {
 		r.Fail(kind, fmt.Sprintf("%s; op: %s", detail, short), map[string]string{"oracle": kind, "op": f[0], "prims": primKinds(f)})
 	}
 	obs := res.answer
-	if f[0] == "x" {
+	if f[0] == "x" || f[0] == "jx" {
 		obs = res.real
 	}
 	g := strings.Fields(obs)
@@ -1377,7 +1382,7 @@ func oracle(r *hx.Run, op string, res result, mut string) {
 	}
 	k := uint64(64)
 	switch f[0] {
-	case "x", "m", "jt":
+	case "x", "m", "jt", "jx":
 		k = 256 // jt: encoding/json builds the generic tree of the text (an interface value + slice / map header per node)
 	case "sr":
 		// the stream readers may allocate 5 bytes per byte of data + 16 KiB (C02_stream_alloc_linear); the
@@ -1478,7 +1483,7 @@ func (b *batch) emit(op, mut string) {
 	switch f[0] {
 	case "j", "jt":
 		nontrivial = true
-	case "x":
+	case "x", "jx":
 		nontrivial = res.real != "err"
 	case "d":
 		nontrivial = g[0] == "ok" || (len(g) > 1 && g[1] != "0") || mut == "valid"
@@ -1747,6 +1752,17 @@ func main() {
 		for k := 0; k < 30*scale; k++ {
 			if genUniverse(rng, fmt.Sprintf("G:%d:%d", rng.U64(), rng.Range(2, 4)), 1, b.emit) {
 				r.Count("universe:generated")
+			}
+		}
+		// the same universes on the JSON side: JSONDecode of kind-mutated JSONEncode texts (no-panic / time / allocation)
+		for _, name := range serixgen.CatalogueNames() {
+			if genUniverseJSON(rng, "K:"+name, b.emit) {
+				r.Count("universe-json:catalogue")
+			}
+		}
+		for k := 0; k < 30*scale; k++ {
+			if genUniverseJSON(rng, fmt.Sprintf("G:%d:%d", rng.U64(), rng.Range(2, 4)), b.emit) {
+				r.Count("universe-json:generated")
 			}
 		}
 	}
